@@ -284,9 +284,16 @@ Theorem C01_counts : forall st,
 Proof. exact count_by_dim_correct. Qed.
 Print Assumptions C01_counts.
 
+(* ---- complex_vertex_range (labels of the root Siblings): exactly the vertices, ascending, each once ---- *)
+Theorem C01_vertex_range : forall l, wf l ->
+  (forall x, In x (map label l) <-> find_val [x] l <> None) /\ Sorted.StronglySorted Z.lt (map label l).
+Proof. exact vertex_range_correct. Qed.
+Print Assumptions C01_vertex_range.
+
 (* ---- stated, not proved in Coq (compared per input by the correspondence run instead) ---- *)
-(* histories that also contain expansion (its algorithm, siblings_expansion, is the subject of C04; here it is
-   modelled at specification level and compared with the C++ per input) *)
+(* histories that also contain expansion - an operation the property text does not list; its algorithm
+   (siblings_expansion) is the subject of C04; here it is modelled at specification level (spec_expand) with the
+   exact dimension_ arithmetic of expansion(), and compared with the C++ per input *)
 Definition C01_history_refines_full : Prop :=
   forall ops, ok_history ops = true ->
     (forall t, t <> [] -> find_val t (tree (run true ops)) = lookup (spec_run ops) t) /\
